@@ -398,6 +398,7 @@ func C08(p *core.Program, r *core.Report) {
 		})
 		r.Note("resource-pairing/"+fname(fn), "cross-reference only: files opened by the store are reclaimed by finalisers, never closed or synced explicitly", p.Pos(fn.Pos()), fmt.Sprintf("%d open, %d close", opens, closes))
 	}
+	checkStoreOpensAfterKill(p, r)
 }
 
 // storeItemRMW: Store.QueryId result flowing into bh.Update within fn.
@@ -600,4 +601,34 @@ func partNameKindTagged(name ssa.Value) (bool, string) {
 		}
 	}
 	return len(pre) >= 2, fmt.Sprintf("prefixes %q", pre)
+}
+
+// checkStoreOpensAfterKill: badger refuses to open a value log whose last entry is incomplete (a kill within a write)
+// unless Options.Truncate is set; the node then does not start and every acknowledged record is out of reach. NewStore
+// sets the option (constant true) on the options it hands to badgerhold.Open, before the call.
+func checkStoreOpensAfterKill(p *core.Program, r *core.Report) {
+	ns := p.Func(storagePkg, "", "NewStore")
+	opens := core.CallsTo(ns, bhPkg+".Open")
+	r.Min("badgerhold.Open calls in NewStore", 1)
+	r.Count("badgerhold.Open calls in NewStore", len(opens))
+	for _, oc := range opens {
+		ok := false
+		core.EachInstr(ns, func(in ssa.Instruction) {
+			st, isSt := in.(*ssa.Store)
+			if !isSt || !core.IsBoolConst(st.Val, true) {
+				return
+			}
+			fa, isFA := st.Addr.(*ssa.FieldAddr)
+			if !isFA {
+				return
+			}
+			if sty := derefStructOf(fa.X.Type()); sty == nil || sty.Field(fa.Field).Name() != "Truncate" {
+				return
+			}
+			if core.MustPassBefore(oc, func(i ssa.Instruction) bool { return i == in }) {
+				ok = true
+			}
+		})
+		r.Check(ok, "crash/"+fname(ns)+"/truncate-allowed", "the index database is opened with Options.Truncate = true, so that a write cut short by a kill costs only that unacknowledged entry and not the start of the node", p.Pos(oc.Pos()), "", "Options.Truncate is not set before badgerhold.Open: after a kill within a Push/Update/Delete the store, and with it the node, does not start any more ('Value log truncate required')")
+	}
 }
